@@ -84,6 +84,29 @@ pub fn run_c16<C: NatCtx>(v: &mut Env<C>) {
             }
         });
     }
+    // end to end: the challenge INSIDE a proof made by the library is the hash of the documented
+    // transcript with the base actually used (default, explicit generator, custom base)
+    for i in 0..(if v.small { 12 } else if quick { 3 } else { 12 }) {
+        let label = v.label(i);
+        let x = v.rnd_exp();
+        let nonce = v.rnd_exp();
+        let base: Option<BigUint> = match i % 3 { 0 => None, 1 => Some(g.clone()), _ => Some(v.rnd_member()) };
+        crate::p_c05::schnorr_case(v, &x, &nonce, &base, &label, false);
+        let bv = base.clone().unwrap_or_else(|| g.clone());
+        let (be, xe) = (v.e(&bv), v.x(&x));
+        let y = ctx.emod_pow(&be, &xe);
+        load_tape(&[nonce.clone()]);
+        let pf = zkp.schnorr_prove(&xe, &y, base.as_ref().map(|b| v.e(b)).as_ref(), &label).unwrap();
+        strand::verif_hooks::load_exp_tape(vec![]);
+        let bytes = zv::schnorr_challenge_bytes::<C>(&be, &y, &pf.commitment, None, &label).unwrap();
+        let expect = C::x_val(&ctx.hash_to_exp(&bytes));
+        v.h.check(C::x_val(&pf.challenge) == expect, || format!("the challenge of a Schnorr proof over base {:?} is not the hash of its documented transcript on {}", base, tok));
+        let g2 = v.rnd_member();
+        crate::p_c05::cp_case(v, &x, &nonce, &base, &g2, &label, false);
+        let m = v.rnd_member();
+        let n2 = v.rnd_exp();
+        crate::p_c05::bound_case(v, &x, &m, &nonce, &n2, &label);
+    }
     // shuffle challenges
     let sizes: Vec<usize> = if v.small { if quick { vec![1, 3] } else { vec![1, 2, 5, 20] } } else if quick { vec![2] } else { vec![1, 4, 10] };
     let sk = v.rnd_exp();
@@ -115,6 +138,22 @@ pub fn run_c16<C: NatCtx>(v: &mut Env<C>) {
             }
             Err(_) => Out::Err,
         });
+        // position counters far beyond the list length: n is a free parameter of shuffle_proof_us
+        if nn <= 3 && (v.small && v.p == big(23) || !v.small && v.p.bits() < 100) {
+            for big_n in [1025usize, 2050] {
+                v.case("us", vec![vcts(&es), vcts(&eps), vnats(&pp.cs), nu(big_n as u64), b(&label)], || match sv::shuffle_us(&sh, &es, &eps, &cs_e, big_n, &label) {
+                    Ok(us) => Out::Ok(l(us.iter().map(|x| Val::Nat(C::x_val(x))).collect())),
+                    Err(_) => Out::Err,
+                });
+            }
+            if !v.small {
+                let us: Vec<BigUint> = sv::shuffle_us(&sh, &es, &eps, &cs_e, 2050, &label).unwrap().iter().map(C::x_val).collect();
+                let mut d = us.clone();
+                d.sort();
+                d.dedup();
+                v.h.check(d.len() == us.len(), || format!("the 2050 per-ciphertext challenges are not pairwise distinct on {}", tok));
+            }
+        }
         if !v.small {
             if let Some(us) = &us0 {
                 let mut u2 = us.clone();
@@ -146,7 +185,7 @@ pub fn run_c17<C: NatCtx>(v: &mut Env<C>) {
     let ctx = v.ctx.clone();
     let tok = v.tok.clone();
     let seeds: Vec<Vec<u8>> = vec![vec![], b"a".to_vec(), v.h.rng.bytes(1024)];
-    let sizes: Vec<usize> = if v.small { if quick { vec![0, 1, 2, 13, 50] } else { vec![0, 1, 2, 50, 400] } } else if quick { vec![0, 1, 3, 12] } else { vec![0, 1, 5, 50, 300] };
+    let sizes: Vec<usize> = if v.small { if quick { if v.p == big(23) { vec![0, 1, 2, 13, 50, 1030] } else { vec![0, 1, 2, 13, 50] } } else { vec![0, 1, 2, 50, 400, 2100] } } else if quick { vec![0, 1, 3, 12] } else { vec![0, 1, 5, 50, 300] };
     for seed in &seeds {
         let mut longest: Vec<BigUint> = vec![];
         for &size in &sizes {
